@@ -10,7 +10,16 @@ DEFAULT = dict(rtol=1e-6, atol=1e-10, name="default")
 TMAX, TMIN = 10.0, 0.01
 
 
-def eos_lattice(tier: str, families=("bag", "template", "twostep")) -> list[dict]:
+QUADS = {  # (a_s, b_s, c_s, a_b, b_b, c_b) of oracles.eos.Quad: temperature-dependent sound speeds, physical down to 0.3 Tn
+    "Q1": (1, 0, -0.1, 0.6, 0.3, 0),  # c_b^2(T) > 1/3, rising towards low T (0.39 ... 0.46); c_s^2 = 1/3
+    "Q2": (1, 0, 0, 0.9, -0.1, 0.2),  # c_b^2(T) < 1/3, falling towards low T
+    "Q3": (1, -0.1, 0, 0.85, 0, 0.05),  # c_s^2(T) < 1/3 varying, c_b^2 = 1/3
+    "Q4": (1, -0.1, 0, 0.6, 0.3, 0),  # both vary, c_b > c_s
+    "Q6": (1, 0.2, -0.3, 0.7, 0.4, 0),  # both vary, both above 1/3, strong transition
+}
+
+
+def eos_lattice(tier: str, families=("bag", "template", "twostep", "quad")) -> list[dict]:
     """Each entry: dict(kind=..., args=[...], Tn=...) - admissibility is decided at run time."""
     out = []
     units = [1.0, 1e-2, 1e2] if tier == "quick" else [1.0, 1e-2, 1e2, 1e-3, 1e3]
@@ -41,7 +50,17 @@ def eos_lattice(tier: str, families=("bag", "template", "twostep")) -> list[dict
                 for s in units if (ab == 0.2 and tn == 0.7) else units[:1]:
                     out.append(dict(kind="twostep", args=[ab, a_s, mu2], Tn=tn, s=s))
         out.append(dict(kind="twostep", args=[0.4, 0.1, 0.6], Tn=0.8, s=1.0))  # fast-hybrid LTE root (0.709 < vJ)
+    if "quad" in families:
+        pts = [("Q1", 0.6), ("Q1", 0.8), ("Q2", 0.8), ("Q3", 0.8), ("Q4", 0.9), ("Q6", 0.7)]
+        if tier != "quick":
+            pts += [("Q1", 0.95), ("Q2", 0.9), ("Q3", 0.95), ("Q4", 0.8), ("Q6", 0.9)]
+        for (q, tn) in pts:
+            for s in units if (q == "Q1" and tn == 0.8) else units[:1]:
+                out.append(dict(kind="quad", args=list(QUADS[q]), Tn=tn, s=s, label=q))
     for c in out:
+        if c["kind"] == "quad":
+            c["id"] = f"quad({c['label']}),Tn={c['Tn']:g},units={c['s']:g}"
+            continue
         c["id"] = f"{c['kind']}({','.join(f'{a:.4g}' for a in c['args'])}),Tn={c['Tn']:g},units={c['s']:g}"
     return out
 
@@ -55,6 +74,8 @@ def build_eos(c: dict) -> tuple[E.EOS, float]:
         base = E.Template(*c["args"], c["Tn"])
     elif c["kind"] == "twostep":
         base = E.TwoStep(*c["args"])
+    elif c["kind"] == "quad":
+        base = E.Quad(*c["args"])
     else:
         raise ValueError(c["kind"])
     if s != 1.0:
@@ -91,12 +112,48 @@ def velocity_lattice(hyd, eos: E.EOS, Tn: float, n_extra: int = 0) -> list[tuple
     pts = [("vmin", vmin * 1.0000001 + 1e-9), ("slow1", 0.01), ("slow2", 0.03), ("v0.1", 0.1), ("v0.2", 0.2), ("v0.3", 0.3),
            ("v0.4", 0.4), ("cb-", cb - 1e-3), ("cb+", cb + 1e-3), ("hyb-mid", 0.5 * (cb + vJ)), ("vJ-", vJ - 1e-4),
            ("vJ+", vJ + 1e-4), ("det-mid", 0.5 * (vJ + 1)), ("v0.9", 0.9), ("v0.99", 0.99), ("v0.05", 0.05)]
+    # the deflagration/hybrid boundary is where vw = c_b(T-(vw)), not c_b(Tn): for a temperature-dependent c_b locate it (with the
+    # matchings of the code under test - they only choose INPUTS here, the oracles judge) and put points on both sides of it and
+    # between it and c_b(Tn)
+    vstar = _true_boundary(hyd, eos, cb, vmin, vJ) if abs(eos.csq("b", 0.9 * Tn) - cb * cb) > 1e-9 else None
+    if vstar is not None and abs(vstar - cb) > 2e-5:
+        pts += [("cbT-", vstar - 1e-4), ("cbT+", vstar + 1e-4)]
+        if abs(vstar - cb) > 4e-4:
+            pts.append(("cbT|cbTn", 0.5 * (vstar + cb)))
     out = []
     for name, v in pts:
         if v < vmin or v >= 1 or not np.isfinite(v):
             continue
         out.append((name, float(v)))
     return out
+
+
+def _true_boundary(hyd, eos, cb, vmin, vJ):
+    """vw with vw^2 = c_b^2(T-(vw)) near c_b(Tn), by bisection over findMatching; None if not bracketed / not computable."""
+    lo, hi = max(vmin, cb - 0.05), min(vJ - 1e-4, cb + 0.05)
+    if not lo < hi:
+        return None
+
+    def g(v):
+        _, _, _, Tm = hyd.findMatching(v)
+        return v * v - eos.csq("b", float(Tm))
+
+    try:
+        glo, ghi = g(lo), g(hi)
+        if not (np.isfinite(glo) and np.isfinite(ghi)) or glo * ghi > 0:
+            return None
+        for _ in range(22):
+            mid = 0.5 * (lo + hi)
+            gm = g(mid)
+            if not np.isfinite(gm):
+                return None
+            if gm * glo > 0:
+                lo, glo = mid, gm
+            else:
+                hi, ghi = mid, gm
+        return 0.5 * (lo + hi)
+    except Exception:
+        return None
 
 
 def branch_of(hyd, eos, v, Tm=None) -> str:
